@@ -91,6 +91,28 @@ async fn blind(s: &mut Box<dyn Sut>, cfg: &Cfg, idx: usize, op: &Op, labels: &mu
     }
 }
 
+/// Every non-empty closed blob has an index file with the written flag and the blob's current size
+async fn closed_blobs_indexed(s: &dyn Sut, dir: &Path) -> Result<(), String> {
+    let det = s.records_count_detailed().await;
+    let has_active = s.has_active().await;
+    let closed = if has_active { &det[..det.len().saturating_sub(1)] } else { &det[..] };
+    for (id, count) in closed {
+        if *count == 0 {
+            continue;
+        }
+        let ip = sut::index_path(dir, *id);
+        let bp = sut::blob_path(dir, *id);
+        let ok = match (std::fs::read(&ip), bp.metadata()) {
+            (Ok(ib), Ok(bm)) => crate::blobfmt::index_layout(&ib).map_or(false, |l| l.written && l.blob_size == bm.len()),
+            _ => false,
+        };
+        if !ok {
+            return Err(format!("closed blob {} holds {} records but has no complete, current index file although a dump was requested and the background machinery is idle", id, count));
+        }
+    }
+    Ok(())
+}
+
 pub fn run_live(c: &Case, dir: &Path, _findings: &Findings) -> Result<CaseOut, Failure> {
     let rt = c.cfg.runtime();
     let _ = std::fs::remove_dir_all(dir);
@@ -116,6 +138,22 @@ pub fn run_live(c: &Case, dir: &Path, _findings: &Findings) -> Result<CaseOut, F
                 continue;
             }
             blind(&mut s, &c.cfg, i, op, &mut labels).await;
+            // every call that requests an index dump: once the background machinery is idle, every non-empty closed
+            // blob has a complete, current index file (the dump task covers all closed blobs)
+            if matches!(op, Op::CloseActive | Op::Switch | Op::BgClose | Op::ForceUpdate(_) | Op::Free) {
+                match wait_quiet(s.as_ref(), true, Duration::from_secs(60)).await {
+                    Ok(_) => {}
+                    Err(st) => {
+                        let clause = if st.worker_alive() { "bg/stall" } else { "bg/worker-dead" };
+                        return fail(clause, format!("after a dump request: {:?}", st), i, &format!("{:?}", op));
+                    }
+                }
+                if let Err(d) = closed_blobs_indexed(s.as_ref(), dir).await {
+                    return fail("bg/dump-not-completed", d, i, &format!("{:?}", op));
+                }
+                stats.queries += 1;
+                labels.insert("dump_request_checked".into());
+            }
         }
         // ---- the probe -------------------------------------------------------------------------
         let step = c.ops.len();
